@@ -189,7 +189,7 @@ theorem fitting_readOnly (pre : Predef) (env : Env V) (n : Node J V) (hwf : Node
 /-- WrongType / RangeError exactly as the datatype classifies the payload -/
 theorem fitting_badPayload (pre : Predef) (env : Env V) (n : Node J V) (hwf : Node.WF pre n) (spec : Spec) (j : J)
     (m a : String) (ht : target "target" spec = some (m, a)) (mod : Module J V) (p : Param J V)
-    (hex : ExportedParam pre n m a mod p) (hro : p.readonly = false) (hc : p.constant = none) (e : Err)
+    (hex : ExportedParam pre n m a mod p) (hro : p.readonly = false) (hc : p.constant = none) (e : Node.Err)
     (h : p.dt.accept j (some p.entry.value) = .error e) :
     handleChange pre env n spec j = ⟨.error e.cls, [], [], n⟩ := by
   unfold handleChange; rw [ht]; simp only
